@@ -24,6 +24,12 @@ CLASS_NAMES = ["Dog", "Point", "Acc"]
 
 INPUT_POOL = ["5", "12", "hello", "", "3.5", "x y", "0", "-1", "  7 ", "Ada", "ünï", "100", "2", "a,b"]
 PROMPTS = ["'Name? '", "'> '", "''", "'Enter a number: '", "'x'", "'Line\\n'", "5", "'ünï? '", None, None]
+# text that is not "printable characters and \\n" (escape sequences in the source; CPython makes the characters):
+# carriage returns, the other separators str.splitlines knows, NUL, ANSI escapes, non-BMP, whitespace-only
+ODD_LITERALS = ["'a\\rb'", "'row\\r\\n'", "'\\r'", "'\\x0c'", "'v\\x0bt'", "'\\x85'", "'\\u2028'", "'\\x00'", "'\\x1b[1mB\\x1b[0m'",
+                "'\\U0001F600'", "'   '", "' \\n'", "'\\x1c'", "'\\t'", "'\\n\\n'", "'\\x08'", "'e\\u0301'"]
+ODD_PROMPTS = ["'Name\\r'", "'\\x1b[1m> '", "'Q\\r\\n'", "'\\x0c? '", "'  '"]
+ODD_INPUTS = ["a\x0bb", "\x0c", "x\x1cy", "\x85", "\u2028z", "\t7\t", "\U0001F600", "5 ", " "]
 
 
 class G:
@@ -124,6 +130,9 @@ class G:
         if d >= 2 or k < 0.35:
             if cands and r.random() < 0.6 and d < 9:
                 return r.choice(cands)
+            if r.random() < 0.12:
+                self.shape.add("odd-text")
+                return r.choice(ODD_LITERALS)
             return r.choice(["'abc'", "''", "'Hello, World'", "\"it's\"", "'a\\tb'", "'line1\\nline2'", "'ünïcödé'",
                              "'  pad  '", "'x'", "'42'", "'a,b,c'"])
         if k < 0.5:     # no doubling inside loops: the right operand is a literal
@@ -265,9 +274,9 @@ class G:
         args = [self.any_expr(scope)[0] for _ in range(n)]
         kw = []
         if r.random() < 0.3:
-            kw.append("sep=%s" % r.choice(["'-'", "''", "', '", "'\\n'", "None"]))
+            kw.append("sep=%s" % r.choice(["'-'", "''", "', '", "'\\n'", "None"] + (ODD_LITERALS if r.random() < 0.3 else [])))
         if r.random() < 0.3:
-            kw.append("end=%s" % r.choice(["''", "'!\\n'", "' '", "'\\n\\n'", "None"]))
+            kw.append("end=%s" % r.choice(["''", "'!\\n'", "' '", "'\\n\\n'", "None"] + (ODD_LITERALS if r.random() < 0.3 else [])))
         if r.random() < 0.05:
             self.imports.add("sys")
             kw.append("file=sys.stdout")
@@ -317,7 +326,7 @@ class G:
 
     def s_input(self, ind, scope):
         r = self.rng
-        p = r.choice(PROMPTS)
+        p = r.choice(PROMPTS + (ODD_PROMPTS if r.random() < 0.15 else []))
         call = "input(%s)" % (p if p is not None else "")
         self.n_inputs += 1
         self.shape.add("input")
@@ -588,6 +597,20 @@ class G:
             self.emit("    return 1 if n < 2 else n * fact(n - 1)", 0)
             self.funcs["fact"] = {"arity": 1, "defaults": 0, "takes": "int", "params": ["n"], "star": False,
                                   "kwonly": False, "defined": True}
+        if r.random() < 0.10:     # a call chain of boundary depth with a planted error (or a value) at the bottom
+            self.shape.add("deep-chain")
+            bottom = r.choice(self.ERRORS + ["return 0", "return [n]"])
+            if not bottom.startswith(("raise", "return", "assert", "import", "from")):
+                bottom = bottom.replace("boom = ", "return ")
+            self.emit("def dive(n, trail=()):", 0)
+            self.emit("    if n <= 0:", 0)
+            self.emit("        %s" % bottom, 0)
+            if r.random() < 0.3:
+                self.emit("    print('dive', n)", 0)
+            self.emit("    below = dive(n - 1, trail + (n,))", 0)
+            self.emit("    return below", 0)
+            self.funcs["dive"] = {"arity": 1, "defaults": 0, "takes": "depth", "params": ["n"], "star": False,
+                                  "kwonly": False, "defined": True}
 
     def def_class(self):
         r = self.rng
@@ -652,9 +675,13 @@ class G:
             code += "\n"
         return code
 
+    DEPTHS = [1, 3, 6, 7, 8, 9, 10, 12, 17, 31, 64]       # replaced by c06.py with the sizes around the tree's constants
+
     ARG_EXPRS = {
+        "depth": [],
         "int": ["3", "0", "-7", "10**20", "True", "2"],
-        "str": ["'abc'", "''", "\"it's\"", "'a\"b'", "'line\\nbreak'", "'ünï'", "'x' * 300", "'\\\\'", "'42'"],
+        "str": ["'abc'", "''", "\"it's\"", "'a\"b'", "'line\\nbreak'", "'ünï'", "'x' * 300", "'\\\\'", "'42'", "'a\\rb'", "'r\\r\\n'",
+                "'\\x0c\\x85'", "'\\x00'", "'\\U0001F600'", "' \\t '"],
         "list": ["[1, 2, 3]", "[]", "[5] * 150", "[[1], [2, [3]]]", "['a', 'b']", "list(range(90))"],
         "any": ["None", "3.5", "float('inf')", "float('-inf')", "float('nan')", "-0.0", "1e22", "(1, 'a')", "()",
                 "{'k': [1, 2]}", "{}", "{1, 2}", "set()", "frozenset({1})", "b'ab'", "(1+2j)", "range(3)", "[float('nan')]",
@@ -673,6 +700,8 @@ class G:
             n += r.randint(1, 2)
         takes = info["takes"]
         out = []
+        if takes == "depth":
+            return [str(r.choice(self.DEPTHS))]
         for _ in range(n):
             t = takes if r.random() < 0.75 else "any"
             pool = self.ARG_EXPRS[t]
@@ -715,6 +744,9 @@ def gen_case(rng, size="small", exhausted_ok=False):
         inputs = [rng.choice(INPUT_POOL) for _ in range(n_in * 6 + rng.randint(0, 2))]
     if rng.random() < 0.6:          # mostly numeric replies, so that int(input()) usually succeeds
         inputs = [x if x.strip().lstrip("-").isdigit() else rng.choice(["4", "0", "17", " 8", "-3"]) for x in inputs]
+    elif inputs and rng.random() < 0.25:
+        inputs = [rng.choice(ODD_INPUTS) if rng.random() < 0.5 else x for x in inputs]
+        g.shape.add("odd-reply")
     if rng.random() < 0.03 and '"""' not in code:
         code = code.replace("\n", "\r\n")          # Windows line endings: same line numbers for CPython
         g.shape.add("crlf")
